@@ -250,6 +250,32 @@ class Spec:
                 self.parent[old] = None
                 self.parent[v] = i
                 l[idx] = v
+        elif k == "delslice":
+            _, i, sl = op
+            l = self.mods[i]
+            for idx in sorted(range(*sl.indices(len(l))), reverse=True):
+                self.detach(l[idx])
+        elif k == "setslice":
+            _, i, sl, vs, how = op
+            l = self.mods[i]
+            idxs = list(range(*sl.indices(len(l))))
+            replaced = [l[x] for x in idxs]
+            if len(set(vs)) != len(vs):
+                raise Outside("duplicate-values")
+            if any(v in l and v not in replaced for v in vs):
+                raise Outside("value-elsewhere-in-same-list")
+            if sl.step not in (None, 1) and len(vs) != len(idxs):
+                raise Outside("extended-slice-length")
+            ref = list(l)
+            ref[sl] = vs
+            for old in replaced:
+                if old not in vs:
+                    self.detach(old)
+            for v in vs:
+                if self.parent[v] is not None and self.parent[v] != i:
+                    self.detach(v)
+                self.parent[v] = i
+            self.mods[i] = ref
         elif k == "lremove":
             _, i, v = op
             if v not in self.mods[i]:
@@ -474,6 +500,18 @@ class Impl:
             return None, self.ix(v)
         elif k == "setitem":
             N[op[1]].modules[op[2]] = N[op[3]]
+        elif k == "delslice":
+            del N[op[1]].modules[op[2]]
+        elif k == "setslice":
+            vals = [N[c] for c in op[3]]
+            how = op[4]
+            if how == "tuple":
+                vals = tuple(vals)
+            elif how == "iter":
+                vals = iter(vals)
+            elif how == "gen":
+                vals = (x for x in vals)
+            N[op[1]].modules[op[2]] = vals
         elif k == "lremove":
             N[op[1]].modules.remove(N[op[2]])
         elif k == "reverse":
@@ -599,6 +637,8 @@ def op_line(op):
         return "lpop %d %d" % (op[1], op[2])
     if k == "setitem":
         return "setitem %d %d %d" % (op[1], op[2], op[3])
+    if k in ("delslice", "setslice"):
+        return "%s %d %s" % (k, op[1], op[2])       # script text only
     if k == "lremove":
         return "lremove %d %d" % (op[1], op[2])
     if k in ("reverse", "lclear"):
@@ -751,7 +791,8 @@ class History:
             l = sp.mods[i]
             kind = rng.choice(["insert", "append", "extend", "delitem",
                                "lpop", "setitem", "lremove", "reverse",
-                               "lclear", "append", "insert"])
+                               "lclear", "append", "insert", "delslice",
+                               "setslice"])
 
             def m():
                 if l and rng.random() < 0.35:
@@ -779,6 +820,23 @@ class History:
                 return ("setitem", i, pos(), m())
             if kind == "lremove":
                 return ("lremove", i, m())
+            if kind in ("delslice", "setslice"):
+                def bound():
+                    return rng.choice([None, None] + list(
+                        range(-len(l) - 1, len(l) + 2)))
+                sl = slice(bound(), bound(),
+                           rng.choice([None, None, 1, 2, -1]))
+                if kind == "delslice":
+                    return ("delslice", i, sl)
+                idxs = list(range(*sl.indices(len(l))))
+                n = len(idxs) if sl.step not in (None, 1) and \
+                    rng.random() < 0.85 else rng.randrange(0, 4)
+                pool = [x for x in mods if x not in l or l.index(x) in idxs]
+                if rng.random() < 0.1:
+                    pool = mods          # K1 patterns, rarely
+                vs = rng.sample(pool, min(n, len(pool)))
+                return ("setslice", i, sl, vs,
+                        rng.choice(["list", "tuple", "iter", "gen"]))
             return (kind, i)
         s = self.pick(["symbol"])
         if s is None:
@@ -851,6 +909,8 @@ class History:
             return True      # outside the property's quantifier: skip the op
         line = op_line(op)
         self.script.append(line)
+        if op[0] in ("delslice", "setslice"):
+            self.pre_list = list(sp.mods[op[1]])
         if pre is not None:
             before, exc, extra = pre
         else:
@@ -885,7 +945,8 @@ class History:
             # forest / UUID-table damage is C03, C04 and C16's business
             if (cons is not None or exc is not None) and \
                     ctx.prop in ("C03", "C04", "C16"):
-                ctx.report({"op": "modules." + op[0], "feature": outside},
+                ctx.report({"op": "modules." + ("setitem" if op[0] in (
+                    "setitem", "setslice") else op[0]), "feature": outside},
                            dict(replay, inconsistency=cons, exception=exc),
                            "module list %s with a value already elsewhere in "
                            "the list left the IR inconsistent: %s"
@@ -916,6 +977,30 @@ class History:
                            "specification in %s (exception %s, expected %s)"
                            % (line, sorted(which), exc, want_exc))
             return False
+        if op[0] in ("delslice", "setslice") and exc is None:
+            # the model sees the composite as deletions (highest index
+            # first) followed by insertions; only the final state is compared
+            sub = []
+            n0 = len(self.pre_list)
+            idxs = list(range(*op[2].indices(n0)))
+            for idx in sorted(idxs, reverse=True):
+                sub.append("delitem %d %d" % (op[1], idx))
+            if op[0] == "setslice":
+                if op[2].step in (None, 1):
+                    a = op[2].indices(n0)[0]
+                    for j, v in enumerate(op[3]):
+                        sub.append("insert %d %d %d" % (op[1], a + j, v))
+                else:
+                    for idx, v in sorted(zip(idxs, op[3])):
+                        sub.append("insert %d %d %d" % (op[1], idx, v))
+            if not sub:
+                return True
+            for l in sub[:-1]:
+                self.lines.append(l)
+                self.impl_out.append(None)
+            self.lines.append(sub[-1])
+            self.impl_out.append("ok | " + after)
+            return True
         self.lines.append(line)
         if op[0] == "popempty":
             self.impl_out.append("KeyError")
@@ -1011,6 +1096,27 @@ def check_nonmutating(hist):
                     problems.append("modules raised %s" % type(e).__name__)
                 continue
             ref = set(members)
+            # an object that can never be a member (a node of another kind,
+            # e.g. a section offered to `symbols`): discard is a no-op,
+            # remove raises KeyError, `in` is False - as for a built-in set
+            wrong = [N[c] for c in range(sp.n)
+                     if sp.kind[c] not in SLOT_CHILD_KINDS[slot]
+                     and sp.kind[c] != "ir"]
+            if wrong:
+                wv = rng.choice(wrong)
+                try:
+                    if wv in coll:
+                        problems.append("wrong-kind node reported as member "
+                                        "of %s" % slot)
+                    coll.discard(wv)
+                    try:
+                        coll.remove(wv)
+                        problems.append("remove of a non-member did not raise")
+                    except KeyError:
+                        pass
+                except Exception as e:   # noqa
+                    problems.append("discard/remove of a non-member raised %s"
+                                    % type(e).__name__)
             try:
                 checks = [
                     ("|", coll | other, ref | other),
